@@ -130,6 +130,13 @@ def impl(case):
         list(c.query(other, filter_context=ctx).limit(1).values())
         got += [m.obj for m in it]
         return got
+    def text_edited():
+        # what earlier evaluations of the TEXT form returned is edited by the caller; the same text is the same document
+        for v in jsonpath.findall("$..*", js) + jsonpath.findall("$", js) + c.findall(js, filter_context=ctx):
+            if isinstance(v, (dict, list)):
+                v.clear()
+        return c.findall(js, filter_context=ctx)
+    res["compiled.findall.after-results-edited/text"] = _vals(text_edited)
     res["compiled.finditer.interleaved/value"] = _vals(interleaved)
     res["pkg.findall/value"] = _vals(lambda: jsonpath.findall(text, deep(doc), filter_context=ctx))
     res["env.query/value"] = _vals(lambda: list(env.query(text, deep(doc), filter_context=ctx).values()))
@@ -159,6 +166,7 @@ def decode(sx, case):
             r["pkg.match/" + fname] = firstv
         r["pkg.findall/value"] = values
         r["compiled.finditer.interleaved/value"] = values
+        r["compiled.findall.after-results-edited/text"] = values
         r["env.query/value"] = values
         r["pkg.query.first_one/value"] = firstv
         return r
